@@ -103,6 +103,21 @@ func calculateLine(l *Line, cur currency.Code, rates []*currency.ExchangeRate, r
 	}
 	price := l.Item.Price.RescaleUp(exp)
 
+	// Fixed discount and charge amounts are input data: bring them to the
+	// precision they are going to be presented with (see Line.round) before
+	// they are used, so that calculating the result again is a no-op.
+	pe := l.Item.Price.Exp()
+	for _, d := range l.Discounts {
+		if d != nil && (d.Percent == nil || d.Percent.IsZero()) {
+			d.Amount = d.Amount.RescaleDown(pe)
+		}
+	}
+	for _, c := range l.Charges {
+		if c != nil && (c.Percent == nil || c.Percent.IsZero()) && c.Rate == nil {
+			c.Amount = c.Amount.RescaleDown(pe)
+		}
+	}
+
 	// Calculate the line sum and total
 	sum := price.Multiply(l.Quantity)
 	sum = tax.ApplyRoundingRule(rr, cur, sum)
